@@ -1,7 +1,9 @@
 package main
 
 import (
+	"fmt"
 	"go/token"
+	"go/types"
 	"strings"
 
 	"golang.org/x/tools/go/ssa"
@@ -65,7 +67,9 @@ func checkC06(c *Ctx, r *Report) {
 			r1.Check(w == "", em("AddConn")+": connected[conn] recorded only after Connected returned", instrPos(i), n+1, "", "a concurrent RemoveConn could dispatch Disconnected while Connected is still running", w)
 		}
 		for _, call := range append(append([]ssa.Instruction{}, oc...), od...) {
-			r1.Check(isParamVar(c, call.(*ssa.Call).Call.Args[0], "conn"), em("AddConn")+": callbacks receive the conn being added", instrPos(call), 1, "", "", "")
+			_, sync := call.(*ssa.Call)
+			r1.Check(sync, em("AddConn")+": callbacks run synchronously inside the call (covered by the emitter's wait group)", instrPos(call), 1, "", "a callback started with go/defer is not waited for by Close: Disconnected can be delivered after the swarm closed", describeInstr(call))
+			r1.Check(isParamVar(c, call.(ssa.CallInstruction).Common().Args[0], "conn"), em("AddConn")+": callbacks receive the conn being added", instrPos(call), 1, "", "", "")
 		}
 	}
 	if rem != nil {
@@ -73,7 +77,9 @@ func checkC06(c *Ctx, r *Report) {
 		r1.Check(len(od) == 1, em("RemoveConn")+": one onDisconnected", rem.Pos(), 1, "", "", "")
 		flagGuard(c, r1, rem, od, lookupHit("connected"), em("RemoveConn")+": Disconnected only for a conn recorded as connected")
 		for _, call := range od {
-			r1.Check(isParamVar(c, call.(*ssa.Call).Call.Args[0], "conn"), em("RemoveConn")+": callback receives the conn being removed", instrPos(call), 1, "", "", "")
+			_, sync := call.(*ssa.Call)
+			r1.Check(sync, em("RemoveConn")+": callback runs synchronously inside the call (covered by the emitter's wait group)", instrPos(call), 1, "", "a callback started with go/defer is not waited for by Close", describeInstr(call))
+			r1.Check(isParamVar(c, call.(ssa.CallInstruction).Common().Args[0], "conn"), em("RemoveConn")+": callback receives the conn being removed", instrPos(call), 1, "", "", "")
 		}
 	}
 
@@ -113,6 +119,8 @@ func checkC06(c *Ctx, r *Report) {
 			r2.Fail(a.name+": branch on "+a.hitField, f.Pos(), "not found", "")
 			continue
 		}
+		// the same lookup result may be tested again later (after the critical section): the arms start at the first test
+		hitE, missE = earliestEdges(hitE), earliestEdges(missE)
 		r2.mustPass(f, a.name+": ["+a.hitField+" hit] the entry is deleted", &Cut{Fn: f, FromEdges: hitE, Sep: inSet(dels), Target: isRet}, len(hitE))
 		// the hit sets the dispatch flag (the flag's false operand is unreachable from the hit edge) and a set flag dispatches
 		var flag *ssa.Phi
@@ -130,21 +138,26 @@ func checkC06(c *Ctx, r *Report) {
 			r2.Check(w1 == "" && w2 == "", a.name+": ["+a.hitField+" hit] Disconnected is dispatched", f.Pos(), n1+n2, "", "a connection found in "+a.hitField+" is removed from it without Disconnected being delivered", w1+w2)
 		}
 		r2.mustPass(f, a.name+": ["+a.hitField+" miss] the conn is recorded in "+a.insFld, &Cut{Fn: f, FromEdges: missE, Sep: inSet(ins), Target: isRet}, len(missE))
-		// the connectedness event is pushed on every path past the closed check, with the right type
-		var adds []ssa.Instruction
-		adds = findInstrs(f, func(in ssa.Instruction) bool {
-			if !isCallTo(in, "(*sync.WaitGroup).Add") {
-				return false
-			}
-			fl, base := fieldAddrOf(in.(ssa.CallInstruction).Common().Args[0])
-			return fl != nil && fieldKeyOf(base, fl) == emT+".wg"
-		})
+		// the connectedness event is pushed on every path past the admission (wg.Add past !closed — directly,
+		// or through a bool helper that returns true exactly when it admitted), with the right type
+		adds, addEdges := admissionPoints(c, f, emT)
 		sends := findInstrs(f, func(in ssa.Instruction) bool {
 			s, ok := in.(*ssa.Send)
 			return ok && isLoadOfField(emT+".peerConnectednessCh")(strip2(s.Chan))
 		})
-		q := &Cut{Fn: f, From: adds, Sep: inSet(sends), Target: isRet}
-		r2.mustPass(f, a.name+": every path pushes the "+a.evType+" to the run loop", q, len(adds))
+		if len(adds)+len(addEdges) == 0 {
+			r2.Fail(a.name+": admission (wg.Add past the closed check)", f.Pos(), "not found", "")
+		} else {
+			q := &Cut{Fn: f, From: adds, FromEdges: addEdges, Sep: inSet(sends), Target: isRet}
+			r2.mustPass(f, a.name+": every path pushes the "+a.evType+" to the run loop", q, len(adds)+len(addEdges))
+			// and nothing is admitted-less: the sends and callbacks are reachable only past the admission
+			var notAdmitted EdgePred
+			if len(addEdges) > 0 {
+				notAdmitted = edgeSet(addEdges)
+			}
+			w, n := (&Cut{Fn: f, Target: func(in ssa.Instruction) bool { return inSet(sends)(in) || isOnConn(in) || isOnDisc(in) }, Sep: inSet(adds), EdgeCut: notAdmitted}).Run(c)
+			r2.Check(w == "", a.name+": events and callbacks only for an admitted operation", f.Pos(), n+1, "", "work is done for an operation Close does not wait for", w)
+		}
 		want := constIntObj(c, swarmP, a.evType)
 		for _, s := range sends {
 			okT := false
@@ -194,29 +207,42 @@ func checkC06(c *Ctx, r *Report) {
 			}
 			r3.Check(held == "", fnKey(f)+": callback invoked with no emitter lock held", instrPos(call), 1, "", "a handler that closes a connection (or blocks) would deadlock / serialise all connections", held)
 		}
-		// wg.Add under closeMu, past !closed
-		for _, a := range findInstrs(f, func(in ssa.Instruction) bool {
-			if !isCallTo(in, "(*sync.WaitGroup).Add") {
-				return false
-			}
-			fl, base := fieldAddrOf(in.(ssa.CallInstruction).Common().Args[0])
-			return fl != nil && fieldKeyOf(base, fl) == emT+".wg"
-		}) {
-			held := false
-			for k := range lf.must[a] {
-				if strings.HasSuffix(k, ".closeMu") {
-					held = true
-				}
-			}
-			r3.Check(held, fnKey(f)+": wg.Add under closeMu", instrPos(a), 1, "", "Close could return while an operation is still being admitted", "")
-			r3.guard(f, "wg.Add", []ssa.Instruction{a}, "!closed", edgeBool(isLoadOfField(emT+".closed"), false), nil)
-		}
+		// (wg.Add sites are checked below, wherever they are)
 		// wg.Done deferred right after
 		defs := findInstrs(f, func(in ssa.Instruction) bool {
 			_, ok := in.(*ssa.Defer)
 			return ok && isCallTo(in, "(*sync.WaitGroup).Done")
 		})
 		r3.Check(len(defs) == 1, fnKey(f)+": defer wg.Done()", f.Pos(), 1, "", "", "")
+	}
+	// every wg.Add on the emitter's wait group: under closeMu, past !closed
+	nAdd := 0
+	for _, g := range c.FnsOfPkg(swarmP) {
+		adds := findInstrs(g, func(in ssa.Instruction) bool {
+			if !isCallTo(in, "(*sync.WaitGroup).Add") {
+				return false
+			}
+			fl, base := fieldAddrOf(in.(ssa.CallInstruction).Common().Args[0])
+			return fl != nil && fieldKeyOf(base, fl) == emT+".wg"
+		})
+		if len(adds) == 0 {
+			continue
+		}
+		lfg := computeLockFlow(g, heldSet{})
+		for _, a := range adds {
+			nAdd++
+			held := false
+			for k := range lfg.must[a] {
+				if strings.HasSuffix(k, ".closeMu") {
+					held = true
+				}
+			}
+			r3.Check(held, fnKey(g)+": wg.Add under closeMu", instrPos(a), 1, "", "Close could return while an operation is still being admitted", "")
+			r3.guard(g, "wg.Add", []ssa.Instruction{a}, "!closed", edgeBool(isLoadOfField(emT+".closed"), false), nil)
+		}
+	}
+	if nAdd == 0 {
+		r3.Fail("wg.Add on the emitter's wait group", token.NoPos, "not found", "")
 	}
 
 	// ---- R4 ---------------------------------------------------------------
@@ -350,35 +376,75 @@ func checkC06(c *Ctx, r *Report) {
 			lk, ok := v.(*ssa.Lookup)
 			return ok && !lk.CommaOk && isLoadOfField(lastK)(strip2(lk.X))
 		}
-		changed := eqEdge(isNew, isOld, false)
-		force := func(b *ssa.BasicBlock, s int) bool {
-			// (Type == addConnEvent) true edge followed by (newState == NotConnected) true edge: take the second test's true edge
-			return edgeIntBound(func(v ssa.Value) bool { return isNew(strip(v)) }, notConn, notConn, false)(b, s)
-		}
-		r6.guard(f, "Emit", emits, "newState != oldState || newState == NotConnected", anyEdge(changed, force), nil)
-		// the NotConnected-forcing branch is reachable only for add events
-		var forceBlocks []CFGEdge
-		for _, b := range f.Blocks {
-			for s := range b.Succs {
-				if force(b, s) {
-					forceBlocks = append(forceBlocks, CFGEdge{b, s})
+		// decision table over the three atoms A: newState != oldState, B: event type == addConnEvent,
+		// C: newState == NotConnected.  Emit is reached iff A || (B && C), on every path of that assignment.
+		cmpAtom := func(isX, isY func(ssa.Value) bool) atomPred {
+			return func(v ssa.Value) (bool, bool) {
+				bo, ok := v.(*ssa.BinOp)
+				if !ok || (bo.Op != token.EQL && bo.Op != token.NEQ) {
+					return false, false
 				}
+				if (isX(strip(bo.X)) && isY(strip(bo.Y))) || (isX(strip(bo.Y)) && isY(strip(bo.X))) {
+					return true, bo.Op == token.EQL
+				}
+				return false, false
 			}
 		}
-		isAdd := func(v ssa.Value) bool {
-			bo, ok := v.(*ssa.BinOp)
-			if !ok || bo.Op != token.EQL {
+		isConstK := func(k int64) func(ssa.Value) bool {
+			return func(v ssa.Value) bool { kk, ok := constInt(v); return ok && kk == k }
+		}
+		isType := func(v ssa.Value) bool { fl, _ := loadOfField(strip2(v)); return fl != nil && fl.Name() == "Type" }
+		eqNewOld := cmpAtom(isNew, isOld)             // atom: new == old
+		eqTypeAdd := cmpAtom(isType, isConstK(addEv)) // atom: type == add
+		// after `last[p] = newState`, a read of last[p] is the new state too
+		isNewOrStored := func(v ssa.Value) bool {
+			if isNew(v) {
+				return true
+			}
+			lk, ok := v.(*ssa.Lookup)
+			if !ok || lk.CommaOk || !isLoadOfField(lastK)(strip2(lk.X)) {
 				return false
 			}
-			k, isC := constInt(bo.Y)
-			fl, _ := loadOfField(strip2(bo.X))
-			return isC && k == addEv && fl != nil && fl.Name() == "Type"
+			for _, st := range findInstrs(f, func(in ssa.Instruction) bool {
+				mu, ok := in.(*ssa.MapUpdate)
+				return ok && isFieldWrite(in, lastK) && isNew(strip(mu.Value))
+			}) {
+				w, _ := (&Cut{Fn: f, Target: isInstr(lk), Sep: isInstr(st)}).Run(c)
+				if w == "" {
+					return true // every path to the read passes the store
+				}
+			}
+			return false
 		}
-		w, n := (&Cut{Fn: f, TargetEdge: edgeSet(forceBlocks), EdgeCut: anyEdge(changed, edgeBool(isAdd, true))}).Run(c)
-		r6.Check(w == "" && len(forceBlocks) > 0, em("notifyPeer")+": a repeated NotConnected only for an add event", f.Pos(), n+1, "", "the same state can be published twice in a row", w)
-		// the new state is recorded
-		q := &Cut{Fn: f, Target: isRet, Sep: func(in ssa.Instruction) bool { _, ok := in.(*ssa.MapUpdate); return ok && isFieldWrite(in, lastK) }}
-		r6.mustPass(f, em("notifyPeer")+": every call records the new state as the last one published", q, 1)
+		eqNewNotConn := cmpAtom(isNewOrStored, isConstK(notConn)) // atom: new == NotConnected
+		isEmit := func(in ssa.Instruction) bool { return inSet(emits)(in) }
+		tab, okT := boolTable(f, []atomPred{eqNewOld, eqTypeAdd, eqNewNotConn}, isEmit)
+		bad := ""
+		for a, o := range tab {
+			same, add, nc := a&1 != 0, a&2 != 0, a&4 != 0
+			if same && !nc {
+				// old == new != NotConnected is consistent; old == new == NotConnected too; all eight are explored
+			}
+			want := !same || (add && nc)
+			if want && !o.all {
+				bad += fmt.Sprintf("[new==old:%v add:%v notConnected:%v] Emit is skipped on some path; ", same, add, nc)
+			}
+			if !want && o.some {
+				bad += fmt.Sprintf("[new==old:%v add:%v notConnected:%v] Emit is reached; ", same, add, nc)
+			}
+		}
+		r6.Check(okT && len(emits) >= 1 && bad == "", em("notifyPeer")+": Emit happens exactly when newState != oldState || (add event && newState == NotConnected) (decision table over the three tests)", f.Pos(), 8, "", "a change of connectedness is not published, or the same state is published twice in a row", bad)
+		// the new state is recorded as the last one published: stored, or — NotConnected being the zero value of a missing entry — deleted
+		isStoreLast := func(in ssa.Instruction) bool {
+			mu, ok := in.(*ssa.MapUpdate)
+			return ok && isFieldWrite(in, lastK) && isNew(strip(mu.Value))
+		}
+		isDelLast := func(in ssa.Instruction) bool { return isCallTo(in, "builtin.delete") && isFieldWrite(in, lastK) }
+		tabRec, okR := boolTable(f, []atomPred{eqNewNotConn}, func(in ssa.Instruction) bool { return isStoreLast(in) || isDelLast(in) })
+		tabDel, okD := boolTable(f, []atomPred{eqNewNotConn}, isDelLast)
+		okRec := okR && okD && tabRec[0].all && tabRec[1].all && !tabDel[0].some
+		// when the state is NotConnected and the entry is stored, it must also be deleted or stored as NotConnected (either is the same table)
+		r6.Check(okRec, em("notifyPeer")+": every call leaves lastConnectednessEvent[p] equal to the new state (a deleted entry reads NotConnected)", f.Pos(), 4, "", "the next event is compared with a stale last state: a change is missed or a non-change published", fmt.Sprintf("recorded: %+v; deleted: %+v; ok=%v,%v", tabRec, tabDel, okR, okD))
 		for _, e := range emits {
 			_ = e
 		}
@@ -447,4 +513,79 @@ func flagGuard(c *Ctx, ru *Rule, f *ssa.Function, targets []ssa.Instruction, con
 		pos = instrPos(targets[0])
 	}
 	ru.Check(ok && len(targets) > 0, name, pos, len(flags)+1, "", "Disconnected can be dispatched for a connection in the wrong state (never connected / not parked)", witness)
+}
+
+// admissionPoints: where an emitter operation counts as admitted in f: after a
+// direct wg.Add on the emitter's wait group, or on the true edge of a call to
+// a module bool function that returns true only after such a wg.Add and
+// false only without one.
+func admissionPoints(c *Ctx, f *ssa.Function, emT string) ([]ssa.Instruction, []CFGEdge) {
+	isAdd := func(in ssa.Instruction) bool {
+		if !isCallTo(in, "(*sync.WaitGroup).Add") {
+			return false
+		}
+		fl, base := fieldAddrOf(in.(ssa.CallInstruction).Common().Args[0])
+		return fl != nil && fieldKeyOf(base, fl) == emT+".wg"
+	}
+	adds := findInstrs(f, isAdd)
+	var edges []CFGEdge
+	allInstrs(f, func(in ssa.Instruction) {
+		call, ok := in.(*ssa.Call)
+		if !ok {
+			return
+		}
+		h := call.Call.StaticCallee()
+		if h == nil || h.Blocks == nil || h == f || h.Signature.Results().Len() != 1 {
+			return
+		}
+		if b, isB := h.Signature.Results().At(0).Type().Underlying().(*types.Basic); !isB || b.Kind() != types.Bool {
+			return
+		}
+		if len(findInstrs(h, isAdd)) == 0 {
+			return
+		}
+		// true only past the Add, false never past it
+		okH := true
+		for _, ret := range returnsOf(h) {
+			b, isC := constBool(retVal(ret, 0))
+			if !isC {
+				okH = false
+				continue
+			}
+			w, _ := (&Cut{Fn: h, Target: isInstr(ret), Sep: isAdd}).Run(c)
+			if b && w != "" {
+				okH = false // returns true without admitting
+			}
+			if !b {
+				if w2, _ := (&Cut{Fn: h, From: findInstrs(h, isAdd), Target: isInstr(ret)}).Run(c); w2 != "" {
+					okH = false // returns false after admitting
+				}
+			}
+		}
+		if !okH {
+			return
+		}
+		edges = append(edges, edgesWhere(f, edgeBool(func(v ssa.Value) bool { return v == ssa.Value(call) }, true))...)
+	})
+	return adds, edges
+}
+
+// earliestEdges drops the edges whose block is reachable from the target of another edge of the set.
+func earliestEdges(es []CFGEdge) []CFGEdge {
+	var out []CFGEdge
+	for i, e := range es {
+		later := false
+		for j, o := range es {
+			if i == j || o.B == e.B {
+				continue
+			}
+			if blockReaches(o.B.Succs[o.Succ], e.B) && !blockReaches(e.B.Succs[e.Succ], o.B) {
+				later = true
+			}
+		}
+		if !later {
+			out = append(out, e)
+		}
+	}
+	return out
 }
